@@ -62,6 +62,36 @@ def check_alloc(run, f):
     allocs = [st for st, _ in walk(f.node) if isinstance(st, ast.Assign) and norm(st.targets[0]) == G and isinstance(st.value, ast.Call)]
     ok = len(allocs) == 1 and allocs[0].value.args and norm(allocs[0].value.args[0]).replace(' ', '') == '2*N'
     run.check(ok, 'R12.alloc', f, 'g = zeros(2*N)', 'the string has two slots per position')
+    # a sequence description is trimmed by two slots per prefix character at the end, which is only right when the string was
+    # allocated with one position per character of the description - whatever qubit number the caller passed along
+    if len(allocs) == 1 and allocs[0] in f.node.body and len(f.posparams) >= 2:
+        from .. import mini
+        OBJ, NP = f.posparams[0], f.posparams[1]
+        TYPES = {'tuple': tuple, 'list': list, 'dict': dict, 'str': str}
+
+        def call(n, env, rec):
+            fn = norm(n.func)
+            if fn == 'isinstance' and len(n.args) == 2:
+                v = rec(n.args[0])
+                ts = n.args[1].elts if isinstance(n.args[1], ast.Tuple) else [n.args[1]]
+                return any(isinstance(v, TYPES[norm(t)]) for t in ts if norm(t) in TYPES)
+            if fn.split('.')[-1] == 'is_tensor':
+                return False
+            raise Undecidable('call ' + fn)
+        body = f.node.body[:f.node.body.index(allocs[0]) + 1]
+        desc = ('-', 'X', 'Y')
+        for nval in (None, 2, 3, 7):
+            try:
+                tr = mini.execute(f.node, {OBJ: desc, NP: nval}, call=call, body=body)
+                at = [e for st, e in tr if st is allocs[0]]
+                if not at:
+                    raise Undecidable('allocation not reached')
+                got = ev(allocs[0].value.args[0], at[0])
+            except (Undecidable, TypeError) as e:
+                run.undecided('R12.alloc', f, allocs[0], 'allocation size for a sequence description not evaluable: %s' % e)
+                break
+            run.check(got == 2 * len(desc), 'R12.alloc', f, 'pauli(%r, %s=%r)' % (desc, NP, nval), 'a description of %d characters (prefix included) needs %d slots before '
+                      'trimming; %d are allocated when %s=%r is passed: every prefix character then cuts a qubit off the end' % (len(desc), 2 * len(desc), got if isinstance(got, int) else -1, NP, nval))
     rets = [(st, ctx) for st, ctx in walk(f.node) if isinstance(st, ast.Return) and isinstance(st.value, ast.Call) and norm(st.value.func) == 'Pauli'
             and len(st.value.args) == 2]
     seen = set()
@@ -115,6 +145,96 @@ def getitem_checks(run, repo, prel):
                     v = st.value
                     ok = isinstance(v, ast.Call) and isinstance(v.func, ast.Attribute) and v.func.attr in ('set_cs', 'set_c')
                     run.check(ok, 'R13.getitem', g, st, 'a selection of a polynomial keeps its coefficients (every result needs set_cs / set_c)')
+
+
+def list_printer(run, repo, prel, pref, letters, tl, tp, rule='R12.listrepr'):
+    """PauliList.__repr__: either every element is printed by the element printer (Pauli.__repr__, decided above), or the list
+    decodes its own token array - then it is a second printer and is executed on the tokens the writer emits for the four
+    phases: every line must be what the element printer prints for that operator."""
+    from ..names import inlined
+    from .. import mini
+    f = repo.func(prel, 'PauliList.__repr__')
+    rets = [st.value for st, _ in walk(f.node) if isinstance(st, ast.Return) and st.value is not None]
+    if len(rets) == 1:
+        v = inlined(f, rets[0])
+        if isinstance(v, ast.Call) and isinstance(v.func, ast.Attribute) and v.func.attr == 'join' and len(v.args) == 1 \
+                and isinstance(v.args[0], (ast.ListComp, ast.GeneratorExp)) and len(v.args[0].generators) == 1:
+            g = v.args[0].generators[0]
+            e = v.args[0].elt
+            tv = g.target.id if isinstance(g.target, ast.Name) else None
+            deleg = tv and norm(g.iter) == 'self' and not g.ifs and (
+                (isinstance(e, ast.Call) and norm(e.func) in ('repr', 'str') and [norm(a) for a in e.args] == [tv])
+                or (isinstance(e, ast.Call) and isinstance(e.func, ast.Attribute) and e.func.attr in ('__repr__', '__str__') and norm(e.func.value) == tv))
+            if deleg:
+                run.ok(rule, f, rets[0], 'one line per element, printed by the element printer')
+                return
+    if not all(isinstance(p_, int) for p_ in (0, 1, 2, 3)) or any(tp.get(p_) is None for p_ in range(4)) or any(letters.get(k) is None or tl.get(k) is None for k in ((1, 0), (0, 1))):
+        run.undecided(rule, f, '__repr__', 'the list prints by itself and the writer tables are not available')
+        return
+    rows = tuple((tl[(1, 0)], tl[(0, 1)], tp[p_]) for p_ in range(4))
+    want = '\n'.join((pref[p_] or '') + letters[(1, 0)] + letters[(0, 1)] for p_ in range(4))
+    heap = {}
+
+    def attr(n, env, rec):
+        t = norm(n)
+        if t == 'self.N':
+            return 2
+        if t == 'self.L':
+            return 4
+        raise Undecidable('attribute ' + t)
+
+    def call(n, env, rec):
+        fn = n.func
+        if isinstance(fn, ast.Attribute):
+            if norm(fn) == 'self.tokenize' and not n.args:
+                return rows
+            if fn.attr in ('long', 'int', 'tolist', 'cpu', 'numpy', 'detach', 'astype', 'to') :
+                return rec(fn.value)
+            base = rec(fn.value)
+            if isinstance(base, str) and fn.attr == 'join' and len(n.args) == 1:
+                return base.join(rec(n.args[0]))
+            if isinstance(base, str) and fn.attr == 'format':
+                return base.format(*[rec(a) for a in n.args])
+        if isinstance(fn, ast.Name) and fn.id == 'str' and len(n.args) == 1:
+            return str(rec(n.args[0]))
+        raise Undecidable('call ' + norm(n.func))
+
+    def sub(n, env, rec):
+        base, idx = rec(n.value), rec(n.slice)
+        try:
+            return base[idx]
+        except Exception as e:
+            raise Undecidable('subscript %s: %s' % (norm(n), e))
+    res = []
+    try:
+        env0 = {}
+
+        def on_expr(e, env, value):
+            # lines.append(x): the list local grows
+            if isinstance(e, ast.Call) and isinstance(e.func, ast.Attribute) and e.func.attr == 'append' and isinstance(e.func.value, ast.Name) and len(e.args) == 1:
+                heap.setdefault(e.func.value.id, []).append(value(e.args[0]))
+                return None
+            return value(e)
+
+        # a local list that is appended to is read back from the heap
+        appended = {e.func.value.id for e in ast.walk(f.node) if isinstance(e, ast.Call) and isinstance(e.func, ast.Attribute) and e.func.attr == 'append'
+                    and isinstance(e.func.value, ast.Name)}
+
+        def call2(n, env, rec):
+            if isinstance(n.func, ast.Attribute) and n.func.attr == 'join' and len(n.args) == 1 and isinstance(n.args[0], ast.Name) and n.args[0].id in appended:
+                return rec(n.func.value).join(heap.get(n.args[0].id, []))
+            return call(n, env, rec)
+        mini.execute(f.node, env0, sub=sub, call=call2, attr=attr, on_expr=on_expr, result=res)
+    except (Undecidable, TypeError, KeyError, IndexError) as e:
+        run.undecided(rule, f, '__repr__', 'the list prints by itself in a form this rule does not execute: %s' % e)
+        return
+    got = res[0] if res else None
+    if not isinstance(got, str):
+        run.undecided(rule, f, '__repr__', 'the printed text of the model list could not be computed')
+        return
+    bad = [(p_, a, b) for p_, (a, b) in enumerate(zip(got.split('\n'), want.split('\n'))) if a != b]
+    run.check(got == want, rule, f, '__repr__', 'the list decodes its token array by itself: the operator with phase i^%s is printed as %r, the element printer gives %r '
+              '(phase tokens are 4=+ 5=- 6=+i 7=-i, not ordered by the phase exponent)' % (bad[0] if bad else ('', got, want)))
 
 
 def second_readers(run, repo, prel, tok_phase, rule='R12.reader'):
@@ -203,6 +323,7 @@ def check(run):
         tab = check_reader(run, rd, (pref, letters, tl, tp))
         check_alloc(run, rd)
         second_readers(run, repo, prel, {p_: t_ for p_, t_ in tp.items() if isinstance(p_, int)} or {0: 4, 2: 5, 1: 6, 3: 7})
+        list_printer(run, repo, prel, pref, letters, tl, tp)
         # for the comparison of the two packages only what a token DOES counts: `continue` after the last effect is the same
         # reader as an if / elif chain that falls through to nothing
         ntab = {k: tuple(sorted((e for e in v if e != ('skip',)), key=repr)) for k, v in (tab or {}).items()}
@@ -346,6 +467,7 @@ def check(run):
     run.floor('R12.neg', 4)
     run.floor('R13.getitem', 8)
     run.floor('R12.alloc', 10)
+    run.floor('R12.listrepr', 2)
     run.floor('R12.port', 5)
     run.floor('R12.defaults', 10)
     run.decide('reader(writer(x)) = x on letters, prefixes, letter tokens and phase tokens; letters equal the Pauli matrices; '
